@@ -105,6 +105,34 @@ Definition er_prepare (cx : rctx) (r : ereader) : prep :=
       end
   end.
 
+(** the prepare-and-read loop at the end of envelopingReader.Read; it repeats only for an empty
+    message of an enveloped client towards a backend without envelopes, and every repetition
+    consumes an envelope from upstream: fuel = number of upstream bytes suffices *)
+Fixpoint er_next (fuel : nat) (cx : rctx) (r0 : ereader) (k : Z) : (bytes * rstat) * ereader :=
+  match fuel with
+  | O => (([], SErr EOther), r0)
+  | S f =>
+      match er_prepare cx r0 with
+      | PrepErr e u' msgs rep =>
+          (([], SErr e), mkER u' (Some e) (er_cur r0) (er_env r0) 0 msgs (er_reports r0 ++ rep))
+      | PrepOk c env u' msgs rep =>
+          let envrem := length env in
+          if k <? Z.of_nat envrem then
+            ((ztake k env, SOk), mkER u' None c env (envrem - Z.to_nat k) msgs (er_reports r0 ++ rep))
+          else
+            let '((d, st), c', u'', rep2) :=
+              if Z.of_nat envrem <? k then cur_read c u' (k - Z.of_nat envrem) else (([], SOk), c, u', []) in
+            let r1 := mkER u'' None c' env 0 msgs (er_reports r0 ++ rep ++ rep2) in
+            let enveloped_client := match cenv cx with Some _ => true | None => false end in
+            if is_eof st && ((0 <? envrem)%nat || enveloped_client) then
+              match env ++ d with
+              | [] => er_next f cx r1 k
+              | out => ((out, SOk), r1)
+              end
+            else ((env ++ d, st), r1)
+      end
+  end.
+
 (** envelopingReader.Read(data) with len(data) = k >= 1 *)
 Definition er_read (cx : rctx) (r : ereader) (k : Z) : (bytes * rstat) * ereader :=
   match er_err r with
@@ -140,19 +168,7 @@ Definition er_read (cx : rctx) (r : ereader) (k : Z) : (bytes * rstat) * ereader
                 | c => let '(_, c', u', rep) := cur_read c (er_up r) k in
                        mkER u' None c' (er_env r) 0 (er_msgs r) (er_reports r ++ rep)
                 end in
-              match er_prepare cx r0 with
-              | PrepErr e u' msgs rep =>
-                  (([], SErr e), mkER u' (Some e) (er_cur r0) (er_env r0) 0 msgs (er_reports r0 ++ rep))
-              | PrepOk c env u' msgs rep =>
-                  let envrem := length env in
-                  if k <? Z.of_nat envrem then
-                    ((ztake k env, SOk), mkER u' None c env (envrem - Z.to_nat k) msgs (er_reports r0 ++ rep))
-                  else
-                    let '((d, st), c', u'', rep2) :=
-                      if Z.of_nat envrem <? k then cur_read c u' (k - Z.of_nat envrem) else (([], SOk), c, u', []) in
-                    let st' := if (0 <? envrem)%nat && is_eof st then SOk else st in
-                    ((env ++ d, st'), mkER u'' None c' env 0 msgs (er_reports r0 ++ rep ++ rep2))
-              end
+              er_next (S (length (flat (er_up r0)))) cx r0 k
           end
       end
   end.
@@ -170,8 +186,12 @@ Record oracles := mkOr {
 Definition decomp_class (o : oracles) (b : bytes) : ecls := if o_toobig o b then EResourceExhausted else EOther.
 
 (** result: the bytes to send, or the class of the error reported to the client *)
+(** message.mustCompress: the server side has no per-message flag but declared a compression *)
+Definition must_compress (cx : rctx) : bool :=
+  match senv cx with None => server_comp cx | Some _ => false end.
+
 Definition advance_send (cx : rctx) (o : oracles) (was_compressed : bool) (b : bytes) : bytes + ecls :=
-  if same_codec cx && (negb was_compressed || same_comp cx) then inl b        (* fast path *)
+  if same_codec cx && (negb was_compressed || same_comp cx) && (was_compressed || negb (must_compress cx)) then inl b   (* fast path *)
   else if negb (same_codec cx) then
     (* stageRead -> stageDecoded -> stageSend *)
     let plain := if was_compressed && client_comp cx && negb (Nat.eqb (length b) 0)
@@ -184,13 +204,13 @@ Definition advance_send (cx : rctx) (o : oracles) (was_compressed : bool) (b : b
         | Some m =>
             match o_encode o m with
             | None => inr EOther
-            | Some e => inl (if was_compressed && server_comp cx then o_compress o e else e)
+            | Some e => inl (if (was_compressed || must_compress cx) && server_comp cx then o_compress o e else e)
             end
         end
     end
   else
-    (* same codec, compressed, different compression: decompress then compress *)
-    let plain := if client_comp cx && negb (Nat.eqb (length b) 0)
+    (* same codec: decompress what was compressed, then compress for the server side *)
+    let plain := if was_compressed && client_comp cx && negb (Nat.eqb (length b) 0)
                  then match o_decompress o b with Some p => inl p | None => inr (decomp_class o b) end else inl b in
     match plain with
     | inr e => inr e
